@@ -178,6 +178,7 @@ class Scenario:
         self.lstsq = None
         self.rcond = None
         self.drop_tests = []
+        self.bad_vanish_tests = []         # vanishing predicates that are not "|x| <= atol at every volume"
         self.lineq_syms = None
         self.probes = []
 
@@ -326,11 +327,106 @@ def run_fill(model, sc: Scenario, ctx=None):
             raise AnalysisError("lstsq called with unexpected operands")
         sc.lstsq = (A, B)
         sc.rcond = k.get("rcond")
-        x = Tup([sp.Symbol(f"X{i}", real=True) for i in range(A.shape[1])], "list")
+        x = SolMat([sp.Symbol(f"X{i}", real=True) for i in range(A.shape[1])])
         resid = sc.resid
         if resid == "atol":
             resid = ev_ref["atol"]
         return Tup([x, num_const(resid), sp.Integer(sc.rank), sp.Symbol("SV")])
+
+    MAXV, MINV, ABSV = sp.Function("MAXV"), sp.Function("MINV"), sp.Function("ABSVOL")
+
+    class SolMat:
+        """the least-squares solution: one row (a vector over the volumes) per component; rows are the atoms X0..X20.
+        Row-wise expressions over the volume axis are kept as MAXV / MINV / ABSVOL forms so that a 'vanishes at every volume'
+        test can be recognised whatever its spelling"""
+
+        def __init__(self, rows):
+            self.rows = list(rows)
+
+        def sym_iter(self, ev, n, mod):
+            return list(self.rows)
+
+        def sym_len(self):
+            return sp.Integer(len(self.rows))
+
+        def sym_subscript(self, ev, idx, n, mod):
+            if is_sym(idx) and idx.is_Integer:
+                return self.rows[int(idx)]
+            raise ev.err("index into the solution matrix", n, mod)
+
+        def sym_getattr(self, ev, name, node, mod):
+            if name in ("max", "min"):
+                return BoundLib(f"solmat.{name}", self)
+            if name == "shape":
+                return Tup([sp.Integer(len(self.rows)), sp.Symbol("NVOL", positive=True, integer=True)])
+            if name in ("T", "copy", "astype"):
+                raise ev.err(f"solution matrix attribute {name}", node, mod)
+            raise ev.err(f"solution matrix attribute {name}", node, mod)
+
+        def sym_compare(self, ev, op, other, reflected, n, mod):
+            import ast as _ast
+            opn = {_ast.LtE: "<=", _ast.Lt: "<", _ast.GtE: ">=", _ast.Gt: ">"}.get(type(op))
+            if opn is None or reflected:
+                raise ev.err("comparison of the solution matrix", n, mod)
+            return PredList([(r, opn, other) for r in self.rows], per_volume=any(not _reduced(r) for r in self.rows))
+
+    def _reduced(e):
+        """the expression has been reduced over the volume axis"""
+        e = sp.sympify(e)
+        return e.func in (MAXV, MINV) or (e.func == ABSV and _reduced(e.args[0]))
+
+    class PredList:
+        """one predicate per component"""
+
+        def __init__(self, preds, per_volume=False):
+            self.preds, self.per_volume = preds, per_volume
+
+        def sym_getattr(self, ev, name, node, mod):
+            if name in ("all", "any"):
+                return BoundLib(f"predlist.{name}", self)
+            raise ev.err(f"attribute {name} of a list of predicates", node, mod)
+
+        def sym_iter(self, ev, n, mod):
+            if self.per_volume:
+                raise ev.err("a per-volume predicate used where one truth value per component is needed", n, mod)
+            return [PredV(*p) for p in self.preds]
+
+    class PredV:
+        def __init__(self, expr, opn, bound):
+            self.expr, self.opn, self.bound = sp.sympify(expr), opn, bound
+
+        def sym_truth(self, ev, n, mod):
+            # canonical: MAXV(ABSVOL(X_i)) <= drop_atol  (|x| <= atol at every volume)
+            e = self.expr
+            row = next(iter(e.free_symbols), None)
+            canonical = self.opn in ("<=", "<") and e == MAXV(ABSV(row)) and self.bound == DROP_ATOL
+            sc.drop_tests.append(self.bound)
+            if not canonical:
+                sc.bad_vanish_tests.append(f"{e} {self.opn} {self.bound}")
+            return str(row) in sc.zero
+
+    def solmat_reduce(kind):
+        def f(ev, a, k):
+            axis = k.get("axis", a[1] if len(a) > 1 else None)
+            if axis is None or _const_int(axis) not in (1, -1):
+                raise AnalysisError("reduction of the solution matrix not along the volume axis")
+            fn = MAXV if kind == "max" else MINV
+            return SolMat([fn(r) for r in a[0].rows])
+        return f
+
+    def solmat_abs(ev, a, k):
+        v = a[0]
+        if isinstance(v, SolMat):
+            return SolMat([ABSV(r) for r in v.rows])
+        raise AnalysisError("numpy.abs of an unexpected value in fill_cij")
+
+    def predlist_all(ev, a, k):
+        pl = a[0]
+        axis = k.get("axis", a[1] if len(a) > 1 else None)
+        if not pl.per_volume or axis is None or _const_int(axis) not in (1, -1):
+            raise AnalysisError("all()/any() of a predicate list not along the volume axis")
+        # (ABS(x) <= a).all(axis=1)  ==  MAXV(ABS(x)) <= a
+        return PredList([(MAXV(e), opn, b) for e, opn, b in pl.preds])
 
     def num_const(v):
         return ResidV(v if is_sym(v) else sp.nsimplify(v, rational=True))
@@ -446,6 +542,8 @@ def run_fill(model, sc: Scenario, ctx=None):
         "cij.data:get_data_fname": get_data_fname, "builtins.open": open_,
         "sympy.parsing.sympy_parser.parse_expr": parse_expr, "sympy.symbols": symbols, "sympy.Symbol": symbols,
         "sympy.linear_eq_to_matrix": lineq, "numpy.array": np_array, "numpy.broadcast_to": broadcast_to,
+        "solmat.max": solmat_reduce("max"), "solmat.min": solmat_reduce("min"), "numpy.abs": solmat_abs, "numpy.absolute": solmat_abs, "numpy.fabs": solmat_abs,
+        "predlist.all": predlist_all,
         "numpy.concatenate": concatenate, "numpy.vstack": concatenate, "numpy.row_stack": concatenate, "numpy.repeat": repeat, "sympy.matrix2numpy": matrix2numpy,
         "numpy.linalg.lstsq": lstsq, "numpy.allclose": allclose,
         "numpy.isclose": isclose, "boolmat.any": boolred("any"), "boolmat.all": boolred("all"),
